@@ -22,6 +22,8 @@ case "${1:-}" in
     exit 0 ;;
   replay)
     build release
+    # artefacts of C20 are re-run in both build profiles
+    case "$(basename "$2")" in C20-*) build checked ;; esac
     exec "$ROOT/harness/target/release/rtamc" replay "$2" ;;
   C20)
     build release
